@@ -442,10 +442,11 @@ func (r *Run) Execute() ([]map[string]any, error) {
 	restarted := false
 	offered := []any{}
 	if opened {
+		// let the backlog age past queue_retention.prune_interval (1s, far below max_age) and the leases (1s) run out
+		time.Sleep(1200 * time.Millisecond)
 		if err := r.start(""); err == nil {
-			restarted = r.waitHealthy(25 * time.Second)
+			restarted = r.waitHealthy(25*time.Second) || r.waitHealthy(35*time.Second)
 			if restarted {
-				time.Sleep(1200 * time.Millisecond)
 				for i := 0; i < 6; i++ {
 					b, _ := json.Marshal(map[string]any{"batch": 50, "lease_ttl": "30s", "max_wait": "0s"})
 					status, body := r.post(r.ports.pull, "/pull/p/dequeue", b, map[string]string{"Authorization": "Bearer tok"})
